@@ -109,6 +109,30 @@ class Frozen(Monitor):
                            {'victim_pool_index': i, 'victim_origin_op': e.origin, 'path': d, 'field': field_of(d)}, case)
                 e.view = cur     # report once
 
+        # (3) asking a plate or slice a read-only question leaves what its wells answer unchanged (an observable of a
+        # container is also what its observers say, not only its attributes)
+        touched = list(out.new_entries) + [world.pool[i] for i in self.refs(op) if i < len(world.pool)]
+        seen = set()
+        for e in touched:
+            if e.kind not in ('p', 's') or id(e.obj) in seen:
+                continue
+            seen.add(id(e.obj))
+            plate = e.obj if e.kind == 'p' else e.obj.plate
+            wells = [w for row in plate.wells for w in row]
+            try:
+                before = [(sorted(s_.name for s_ in w.get_substances()), w.get_volume()) for w in wells]
+                e.obj.get_substances()
+                e.obj.get_volumes()
+                plate.get_substances()
+                plate.get_volume()
+                after = [(sorted(s_.name for s_ in w.get_substances()), w.get_volume()) for w in wells]
+            except Exception:  # noqa  (what observers answer is C10's; here only that asking changes nothing)
+                continue
+            col.label('observers-asked')
+            if before != after:
+                idx = next(i for i, (x, y) in enumerate(zip(before, after)) if x != y)
+                col.report(f"observer-changes-later-answers/{e.kind}", {'well': idx, 'before': before[idx], 'after': after[idx]}, case)
+
     def refs(self, op):
         out = []
         for key in ('src', 'dst', 'obj'):
@@ -139,7 +163,9 @@ class Frozen(Monitor):
 PROFILE = {'weights': {'transfer': 6, 'container': 2, 'plate': 1, 'remove': 2, 'fill_to': 2, 'slice': 3,
                        'create_solution': 1, 'dilute': 2, 'create_solution_from': 1},
            'q_modes': ['frac'] * 6 + ['over', 'over', 'whole', 'zero', 'neg'], 'self_transfer': False,
-           'ctor_faults': True, 'initial_slices': 1}
+           'ctor_faults': True, 'initial_slices': 1,
+           # lists may name a well twice (only fingerprints are judged here, whatever such a list means well by well)
+           'dup_wells': True}
 
 
 def run(col):
